@@ -20,11 +20,16 @@ EXTENDS Alignment, TLC, Json, IOUtils
 Rec == ndJsonDeserialize(IOEnv.TRACE)
 MAX_CELLS == 5000000
 
-VARIABLES run, idx, ok
-vars == <<run, idx, ok>>
+\* clip = the clip penalties the object is configured with: set by the constructor, changed only by the
+\* caller through banded::Aligner::get_mut_scoring (event set_clips); copies of the object (clone,
+\* clone_from, a serde round trip) carry them along
+VARIABLES run, idx, ok, clip
+vars == <<run, idx, ok, clip>>
 
 Scheme(cfg) == [S |-> cfg.S, go |-> cfg.go, ge |-> cfg.ge,
-                xp |-> cfg.clip[1], xs |-> cfg.clip[2], yp |-> cfg.clip[3], ys |-> cfg.clip[4]]
+                xp |-> clip[1], xs |-> clip[2], yp |-> clip[3], ys |-> clip[4]]
+
+ObjectOps == {"clone", "clone_from", "serde", "set_clips"}
 
 ModeOf(op) ==
     CASE op \in {"global"} -> "global"
@@ -121,17 +126,19 @@ BandedExplains(cfg, c, r) ==
                    /\ (full => r.score = opt)
 
 Explains(fam, cfg, e) ==
-    CASE fam = "pairwise" -> PairwiseExplains(cfg, e.c, e.r)
+    CASE e.c.op \in ObjectOps -> e.r.st = "ok"
+      [] fam = "pairwise" -> PairwiseExplains(cfg, e.c, e.r)
       [] fam = "banded"   -> BandedExplains(cfg, e.c, e.r)
       [] OTHER -> FALSE
 
-Init == run \in 1..Len(Rec) /\ idx = 0 /\ ok = TRUE
+Init == run \in 1..Len(Rec) /\ idx = 0 /\ ok = TRUE /\ clip = Rec[run].cfg.clip
 Next ==
     /\ ok /\ idx < Len(Rec[run].ev)
     /\ LET good == Explains(Rec[run].fam, Rec[run].cfg, Rec[run].ev[idx + 1])
        IN  /\ ok' = good
            /\ IF good THEN TRUE ELSE PrintT(<<"REJECT", run, idx + 1>>)
     /\ idx' = idx + 1
+    /\ clip' = IF Rec[run].ev[idx + 1].c.op = "set_clips" THEN Rec[run].ev[idx + 1].c.a.clip ELSE clip
     /\ UNCHANGED run
 Spec == Init /\ [][Next]_vars
 =============================================================================
